@@ -82,6 +82,7 @@ class World:
             self.log.append(("open-fail",))
             raise CommException("No dongle found")
         self.log.append(("open",))
+        self.__dict__["unread_answers"] = []
         self.device.on_reconnect()
         return Transport(self)
 
@@ -156,6 +157,17 @@ class Transport:
                 resp[2] = fault[1]
                 w.device.reset_session()
         w.log.append(("x", idx, apdu, ("ok", bytes(resp)), w.tag))
+        # ledgerblue's HID transport (comm.py, waitFirstResponse): the command is written first, then
+        # the answer is polled for with ``time.time() - start > timeout``.  A timeout that is not a
+        # number fails there with TypeError - after the device took the command; its answer stays in
+        # the queue and is what the NEXT exchange reads.
+        q = w.__dict__.setdefault("unread_answers", [])
+        if isinstance(timeout, bool) or not isinstance(timeout, (int, float)):
+            q.append(bytes(resp))
+            raise TypeError("unsupported operand type(s) for -: 'float' and '%s'" % type(timeout).__name__)
+        if q:
+            q.append(bytes(resp))
+            resp = q.pop(0)
         return bytearray(resp)
 
 
